@@ -248,7 +248,7 @@ fn int_values(min: i128, max: i128, full: bool) -> Vec<i128> {
 
 fn strings() -> Vec<String> {
     let mut v: Vec<String> =
-        ["", "a", "é€", "ab", "aé€", "12", "-1", "+1", "007", "2147483648", "abc", "-2147483649", "9223372036854775808"]
+        ["", "a", "é€", "ab", "aé€", "12", "-1", "+1", "007", "2147483648", "abc", "-2147483649", "9223372036854775808", "\u{1d11e}", "a\u{1d11e}", "\u{1d11e}\u{1f600}", "-9223372036854775809", "18446744073709551616", "170141183460469231731687303715884105727"]
             .iter()
             .map(|s| s.to_string())
             .collect();
@@ -269,9 +269,10 @@ fn xsd_integer(s: &str) -> Option<i128> {
         Some(b'+') => (false, &s[1..]),
         _ => (false, s),
     };
-    if digits.is_empty() || !digits.bytes().all(|b| b.is_ascii_digit()) || digits.len() > 30 {
+    if digits.is_empty() || !digits.bytes().all(|b| b.is_ascii_digit()) {
         return None;
     }
+    // numerals beyond i128 are not in the alphabet (the widest one is i128::MAX)
     let v: i128 = digits.parse().ok()?;
     Some(if neg { -v } else { v })
 }
